@@ -22,6 +22,7 @@ import (
 
 type ccCase struct {
 	Shared bool                `json:"shared"`
+	Fresh  bool                `json:"fresh,omitempty"` // shared object not checked before the goroutines start
 	Progs  map[string][]string `json:"progs"`
 	Objs   map[string]string   `json:"objs"`
 	Rounds int                 `json:"rounds,omitempty"`
@@ -100,7 +101,9 @@ func ccRun(cs ccCase) ([]core.Finding, []string) {
 		world := newWorld() // shared world (clause 2): objects created and first Check() done before the goroutines start
 		if cs.Shared {
 			ccMakeObject(world, "shared", cs.Objs[ps[0]])
-			world.call("Check", "shared", "")
+			if !cs.Fresh {
+				world.call("Check", "shared", "")
+			}
 		}
 		start := make(chan struct{})
 		var wg sync.WaitGroup
@@ -168,7 +171,7 @@ var c11Once sync.Once
 
 func c11Init() {
 	c11Once.Do(func() {
-		apiPrecompute([]string{"nested", "deeper", "usesT", "typeT", "shallow", "orset"}, 1)
+		apiPrecompute([]string{"nested", "usesT", "typeT", "shallow", "orset", "big"}, 1)
 		pools.gid = ccGid
 		pools.install()
 	})
@@ -248,13 +251,24 @@ func runC11(c *core.Ctx) error {
 		return fmt.Errorf("VERIF_RACE_BIN not set (run through bin/check)")
 	}
 	var cases []json.RawMessage
-	rounds := c.Pick(6, 40)
+	rounds := c.Pick(3, 30)
 	n := 0
-	for _, cfg := range []string{"Concurrent_TRUE.cfg", "Concurrent_FALSE.cfg"} {
-		res, err := tlc.Run(tlc.Opts{Module: "Concurrent", Cfg: cfg, Workers: 16, HeapGB: 12, Timeout: 0, OnLine: func(l string) {
+	mkcfg := func(shared, pre bool, contents string) []byte {
+		b := map[bool]string{true: "TRUE", false: "FALSE"}
+		return []byte(fmt.Sprintf("SPECIFICATION Spec\nCONSTANTS\n  Procs = {1, 2}\n  OpsC = {\"Check\",\"Example\",\"GetAST\",\"OpenAPI\"}\n  ContentsC = %s\n  MaxProg = 2\n  Buffers = {\"b1\",\"b2\",\"b3\",\"b4\"}\n  Prechecked = %s\n  Shared = %s\nINVARIANTS NoBufferSharedByTwoProcesses NothingHeldOutsideCalls ResultsAreSequential OnceRunsOnce EmitWork\nCHECK_DEADLOCK FALSE\n", contents, b[pre], b[shared]))
+	}
+	all4 := `{"usesT","orset","rich","big"}`
+	own := `{"usesT","orset"}` // own objects: the quick tier explores two contents (the product of contents squares the state space)
+	if c.Thorough() {
+		own = all4
+	}
+	cfgFiles := map[string][]byte{"Concurrent_shared_prechecked.cfg": mkcfg(true, true, all4), "Concurrent_shared_fresh.cfg": mkcfg(true, false, all4), "Concurrent_own.cfg": mkcfg(false, true, own)}
+	for _, cfg := range []string{"Concurrent_shared_prechecked.cfg", "Concurrent_shared_fresh.cfg", "Concurrent_own.cfg"} {
+		res, err := tlc.Run(tlc.Opts{Module: "Concurrent", Cfg: cfg, Workers: 16, HeapGB: 12, Timeout: 0, Files: cfgFiles, OnLine: func(l string) {
 			n++
 			var raw struct {
 				Shared bool       `json:"shared"`
+				Pre    bool       `json:"prechecked"`
 				Progs  [][]string `json:"progs"`
 				Objs   []string   `json:"objs"`
 			}
@@ -262,7 +276,7 @@ func runC11(c *core.Ctx) error {
 				c.InfraError("bad work assignment %s: %v", l, err)
 				return
 			}
-			cs := ccCase{Shared: raw.Shared, Progs: map[string][]string{}, Objs: map[string]string{}}
+			cs := ccCase{Shared: raw.Shared, Fresh: raw.Shared && !raw.Pre, Progs: map[string][]string{}, Objs: map[string]string{}}
 			for i := range raw.Progs {
 				cs.Progs[fmt.Sprint(i+1)] = raw.Progs[i]
 				cs.Objs[fmt.Sprint(i+1)] = raw.Objs[i]
